@@ -161,8 +161,8 @@ PROPS = {
         'thorough': [],
         'cap': {'quick': 600, 'thorough': 1800},
         'per_harness': {r'c09_\w+': {'unwindset': 'memcmp.0:40'}},
-        'functions': ['token::Biscuit::{block,block_version,block_symbols,block_public_keys,block_external_key}', 'format::convert::proto_block_to_token_block (on empty blocks)'],
-        'bounds': 'tokens of 1 and 2 blocks (empty blocks, declared version 3..6); index 0, 1, 2, usize::MAX and every index > block count + 1 symbolically',
+        'functions': ['token::Biscuit::{block,block_version,block_symbols,block_external_key}', 'token::unverified::UnverifiedBiscuit::block', 'format::convert::v2::{proto_scope_to_token_scope,proto_id_to_token_term} and their inverses'],
+        'bounds': 'tokens of 1 and 2 blocks (empty blocks, declared version 3..6); index 0, 1, 2, usize::MAX and every index > block count + 1 symbolically; wire converters: scope tag any i32 / key id any i64, scalar terms with any payload, two-element sets of every admissible / inadmissible kind pair',
         'stubs': ['alloc::fmt::format', 'zeroize::optimization_barrier'],
         'out': 'arbitrary byte strings into the protobuf / base64 / PEM / Datalog parsers, printing, adversarial block contents (out-of-range symbol and key ids), hangs, deep nesting: only the index arithmetic of the block accessors is decided; evaluation totality is C06, budget arithmetic C10, key/signature length guards C17',
         'level_text': 'Accessor index arithmetic only: bounded symbolic execution of the block accessors for every index on small directly built tokens.',
